@@ -150,6 +150,7 @@ def monitor(ex, final):
 PROFILE = {
     'client_flavours': ['plain', 'plain', 'plain', 'plain', 'jsonp', 'gzip', 'jsonp+gzip'],
     'world_kw_st': st.fixed_dictionaries({
+        'timer_jitter': st.sampled_from([0.0, 0.0, 2.0 ** -12]),   # timers fire slightly late
         'handler_delay': st.sampled_from([{}, {}, {}, {'disconnect': 0.25}, {'message': 0.25},
                                           {'disconnect': 0.25, 'message': 0.25}])}),
     'weights': {'open': 3, 'poll': 3, 'post': 4, 'probe_step': 2, 'ws_send': 2, 'ws_close': 1,
